@@ -35,7 +35,7 @@ REQUIRED_REACH = ["cache_object.py:FileCache.__getitem__", "cache_object.py:File
 REQUIRED_COUNTERS = {"C18.evictions": 10, "C18.hits": 10, "C18.enlargements": 3, "C18.parallel_requests": 3,
                      "C18.histories": 50}
 TIMEOUT = {"quick": 900, "thorough": 3600}
-SYMBOLS = ["gA", "gB", "gAC", "gAx", "rA", "purge", "reopen", "tB", "aA", "foreign", "gBv"]
+SYMBOLS = ["gA", "gB", "gAC", "gAx", "rA", "purge", "reopen", "tB", "aA", "foreign", "gBv", "gZ"]
 LIMITS = {"roomy": 10 ** 6, "tight": 9500, "exact": 8000, "tiny": 4500}
 NSHARDS = {"quick": 16, "thorough": 16}
 MAXLEN = {"quick": 4, "thorough": 5}
@@ -58,6 +58,9 @@ def apply(lab, sym):
     if sym == "gBv":
         # B requested through a validation directive whose function accepts: a hit like any other
         return lab.op_get(["B"], directive="validate=ok:")
+    if sym == "gZ":
+        # a resource of exactly zero bytes
+        return lab.op_get(["Z"])
     if sym == "gAC":
         return lab.op_get(["A", "C"])
     if sym == "gAx":
@@ -126,7 +129,7 @@ def run_history(ctx, seq, limit_name, work, delays_seed=None):
 
 
 def random_history(rng):
-    keys = ["A", "B", "C", "D", "E", "F", "A<<x", "C<<y"]
+    keys = ["A", "B", "C", "D", "E", "F", "A<<x", "C<<y", "Z"]
     n = int(rng.integers(60, 200))
     seq = []
     for _ in range(n):
